@@ -5,6 +5,7 @@ CONSTANTS
   Ids <- Ids2_6
   IdPath <- U2
   THs = {1, 2, 3}
+  LGs = {1}
   MaxHead = 2
   Peers <- OnlyR
   Legacy <- NoPeer
@@ -13,6 +14,7 @@ CONSTANTS
   FIX_SET_COUNT = TRUE
   FIX_MERGE_UP = TRUE
   FIX_NIL_HASH = TRUE
+  DEV_SAME_COUNT_EQUAL = FALSE
 INVARIANT TypeOK
 INVARIANT Canonical
 INVARIANT DiffExactAllRequesters
